@@ -23,6 +23,9 @@ var c15Base = []string{
 	"T // comment ; here\n| count",
 	"T | count // trailing ; comment",
 	"let x = 0x1f; T | take x",
+	"T | where (a == 1; U | count",
+	"T | where a[1; U | where f(b; V",
+	"T | join (U; V) on k; W",
 	"T | where a =~ 'it\\'s;' | extend z = a[\"k;\"]",
 	"T | summarize n = count(), m = max(b) by c, d | sort by n desc nulls first, m asc",
 	"T | join kind=leftouter (R | where y > 1.) on $left.k == $right.k, j | top 3 by x",
@@ -169,6 +172,41 @@ func c15One(w *run.Worker, s string) {
 		return
 	}
 	if err != nil {
+		// even a failing parse reports each statement inside one piece, in order
+		last := -1
+		for k, st := range stmts {
+			// extent of all non-empty spans recorded anywhere in the statement's (partial) tree
+			sp := parser.Span{Start: -1, End: -1}
+			astx.Spans(st, func(_ string, x parser.Span) {
+				if !x.IsValid() || x.End <= x.Start || x.End > len(s) {
+					return
+				}
+				if sp.Start < 0 || x.Start < sp.Start {
+					sp.Start = x.Start
+				}
+				if x.End > sp.End {
+					sp.End = x.End
+				}
+			})
+			if sp.Start < 0 {
+				continue
+			}
+			pi := -1
+			for i, e := range exts {
+				if sp.Start >= e.start && sp.End <= e.end {
+					pi = i
+				}
+			}
+			if pi < 0 {
+				w.Fail("parse:statement-crosses-semicolon", s, fmt.Sprintf("statement %d of the (failed) parse records token positions spanning %v, which is not inside any piece of SplitStatements %q", k, sp, pieces), nil)
+				return
+			}
+			if pi <= last {
+				w.Fail("parse:statement-order", s, fmt.Sprintf("statement %d of the (failed) parse lies in piece %d, not after piece %d", k, pi, last), nil)
+				return
+			}
+			last = pi
+		}
 		return
 	}
 	si := 0
